@@ -165,3 +165,22 @@ def real_debiasers():
 
 def tas_grid(nprs, T, nx, ny, mean, dtype=np.float64):
     return (mean + 3.0 * nprs.standard_normal((T, nx, ny))).astype(dtype)
+
+
+# ------------------------------------------------------------------ replay support
+def pack(obs, hist, fut, prefix=""):
+    """the (tiny) input arrays of a failing case, JSON-able"""
+    return {prefix + k: {"dtype": str(a.dtype), "shape": list(a.shape), "values": [repr(float(v)) for v in a.ravel()]}
+            for k, a in (("obs", obs), ("hist", hist), ("fut", fut))}
+
+
+def unpack(d, prefix=""):
+    return tuple(np.array([float(v) for v in d[prefix + k]["values"]], dtype=np.float64).astype(d[prefix + k]["dtype"]).reshape(d[prefix + k]["shape"])
+                 for k in ("obs", "hist", "fut"))
+
+
+def debiaser_for(case):
+    what = str(case.get("what", ""))
+    if "/" in what and what.split("/", 1)[0] in ("real", "builtin"):
+        return real_debiasers()[what.split("/", 1)[1]]()
+    return make(case.get("kind", "deb"))
